@@ -15,6 +15,7 @@ pub fn parse_u8(s: &VString) -> (r: Result<u8, VErr>) ensures r is Ok <==> parse
 """
 
 CTRL_RULES = [
+    Rule("R6", "ctx . pop ( ) . unwrap ( ) . move_out_of_heap_primitive ( ) ?", "move_out ( ctx . pop ( ) . unwrap ( ) ) ?", why="heap-pointer view abstract: identity on non-pointers"),
     Rule("R5", "$x . parse :: < isize > ( ) ?", "parse_isize ( $x ) ?", why="str::parse::<isize> as assumed contract"),
     Rule("R5", "$x . parse :: < u8 > ( ) . context ( $m ) ?", "parse_u8 ( $x ) ?", why="str::parse::<u8> as assumed contract; context text dropped"),
     Rule("R5", "$x . parse :: < usize > ( )", "parse_usize ( $x )", why="str::parse::<usize> as assumed contract"),
@@ -23,7 +24,6 @@ CTRL_RULES = [
     Rule("R8", "let Some ( [ $a , $b , $c ] ) = args . get ( 0 ..= 2 ) else { $$e } ;",
          "if args . len ( ) < 3 { $$e } let $a = & args [ 0 ] ; let $b = & args [ 1 ] ; let $c = & args [ 2 ] ;", why="slice::get(0..=2) as a 3-element pattern -> length test + indexing"),
     Rule("R9", "lines_to_jump . is_negative ( )", "( lines_to_jump < 0 )", why="isize::is_negative"),
-    Rule("R1", "if ! val {", "if ! * val {", why="`!` on &bool"),
     Rule("R1", "name . clone ( )", "clone_vs ( name )", why="String clone"),
 ]
 
@@ -33,7 +33,9 @@ def build_control(repo):
     log = []
     names = ["pop", "push", "signal", "stack_size", "get_last_op_item", "clear_stack"]
     ctx = ctx_impl(src, log, names)
-    hs = {n: handler(src, log, n, CTRL_RULES) for n in ["if_stmt", "while_loop", "jmp", "jmp_pop", "done", "else_stmt", "store_skip"]}
+    ss_text = text(src.fn(INSTR, "store_skip", "pub mod implementations")["body"])
+    by_ref = [Rule("R1", "if ! val {", "if ! * val {", why="`!` on &bool")] if "* val" in ss_text else []        # `val` bound by reference: `!val` is `!*val`
+    hs = {n: handler(src, log, n, CTRL_RULES + by_ref) for n in ["if_stmt", "while_loop", "jmp", "jmp_pop", "done", "else_stmt", "store_skip"]}
 
     def cond(name, scope):
         return f"""
@@ -42,10 +44,12 @@ def build_control(repo):
 // false -> jump by OFFSET (to where the compile-side layout says: past the block), no frame opened
 pub fn {name}(ctx: &mut Ctx, args: &Vec<VString>) -> (r: Result<(), VErr>)
     ensures
-        (old(ctx).stack@.len() > 0 && old(ctx).stack@.last() is Bool && args@.len() >= 1 && (old(ctx).stack@.last()->Bool_0 || parses_isize(&args@[0]))) ==> r is Ok,
-        r is Ok ==> old(ctx).stack@.len() > 0 && old(ctx).stack@.last() is Bool && args@.len() >= 1 && final(ctx).stack@.len() == 0
-            && (old(ctx).stack@.last()->Bool_0 ==> final(ctx).exit_state == Exit::PushScope(SpecialScope::{scope}))
-            && (!old(ctx).stack@.last()->Bool_0 ==> final(ctx).exit_state == Exit::Goto(num_of(&args@[0]) as isize)),
+        // the condition's VALUE decides: a pointer to a bool (list element, field) counts as that bool
+        (old(ctx).stack@.len() > 0 && moved_out(old(ctx).stack@.last()) is Some && moved_out(old(ctx).stack@.last())->Some_0 is Bool && args@.len() >= 1
+            && (moved_out(old(ctx).stack@.last())->Some_0->Bool_0 || parses_isize(&args@[0]))) ==> r is Ok,
+        r is Ok ==> old(ctx).stack@.len() > 0 && moved_out(old(ctx).stack@.last()) is Some && moved_out(old(ctx).stack@.last())->Some_0 is Bool && args@.len() >= 1 && final(ctx).stack@.len() == 0
+            && (moved_out(old(ctx).stack@.last())->Some_0->Bool_0 ==> final(ctx).exit_state == Exit::PushScope(SpecialScope::{scope}))
+            && (!moved_out(old(ctx).stack@.last())->Some_0->Bool_0 ==> final(ctx).exit_state == Exit::Goto(num_of(&args@[0]) as isize)),
         rest(final(ctx)) == rest(old(ctx)),
 {{
 {render(hs[name], 1)}
@@ -92,10 +96,14 @@ pub fn else_stmt(ctx: &mut Ctx, _args: &Vec<VString>) -> (r: Result<(), VErr>)
 // otherwise it is saved in R and the right operand is evaluated
 pub fn store_skip(ctx: &mut Ctx, args: &Vec<VString>) -> (r: Result<(), VErr>)
     ensures
-        r is Ok ==> args@.len() >= 3 && old(ctx).stack@.len() == 1 && old(ctx).stack@[0] is Bool && num_of(&args@[2]) >= 0 && ({{
-            let v = old(ctx).stack@[0]->Bool_0;
+        // total on a well-formed operand: a bool or a pointer to a bool
+        (args@.len() >= 3 && parses_u8(&args@[1]) && parses_isize(&args@[2]) && num_of(&args@[2]) >= 0 && old(ctx).stack@.len() == 1
+            && moved_out(old(ctx).stack@[0]) is Some && moved_out(old(ctx).stack@[0])->Some_0 is Bool) ==> (r is Ok || !({{ let v = moved_out(old(ctx).stack@[0])->Some_0->Bool_0; if num_of(&args@[1]) == 1 {{ v }} else {{ !v }} }})),
+        r is Ok ==> args@.len() >= 3 && old(ctx).stack@.len() == 1 && moved_out(old(ctx).stack@[0]) is Some && moved_out(old(ctx).stack@[0])->Some_0 is Bool && num_of(&args@[2]) >= 0 && ({{
+            let v = moved_out(old(ctx).stack@[0])->Some_0->Bool_0;
             let skip = if num_of(&args@[1]) == 1 {{ v }} else {{ !v }};
-            &&& (skip ==> final(ctx).exit_state == Exit::Goto(num_of(&args@[2]) as isize) && final(ctx).stack@ == old(ctx).stack@ && rest(final(ctx)) == rest(old(ctx)))
+            // skipped: the (plain) left value is the result of the whole expression
+            &&& (skip ==> final(ctx).exit_state == Exit::Goto(num_of(&args@[2]) as isize) && final(ctx).stack@ == seq![Primitive::Bool(v)] && rest(final(ctx)) == rest(old(ctx)))
             &&& (!skip ==> final(ctx).exit_state == old(ctx).exit_state && final(ctx).stack@.len() == 0
                     && locals_view(&final(ctx).locals) == locals_view(&old(ctx).locals).insert(text_of(&args@[0]), Primitive::Bool(v)))
         }}),
@@ -107,19 +115,19 @@ pub fn store_skip(ctx: &mut Ctx, args: &Vec<VString>) -> (r: Result<(), VErr>)
 fn main() {{}}
 """
     obls = ctx_obls(names, ["C01"]) + [
-        Obl("C01.handler.if_stmt", ["C01", "C09"], fn="if_stmt", desc="if_stmt: condition popped; true -> PushScope(If), false -> Goto(offset); stack cleared; Err on a non-bool / missing operand"),
-        Obl("C01.handler.while_loop", ["C01", "C09"], fn="while_loop", desc="while_loop: condition popped; true -> PushScope(WhileLoop), false -> Goto(offset)"),
+        Obl("C01.handler.if_stmt", ["C01", "C09", "C02"], fn="if_stmt", desc="if_stmt: condition popped; true -> PushScope(If), false -> Goto(offset); stack cleared; Err on a non-bool / missing operand"),
+        Obl("C01.handler.while_loop", ["C01", "C09", "C02"], fn="while_loop", desc="while_loop: condition popped; true -> PushScope(WhileLoop), false -> Goto(offset)"),
         Obl("C01.handler.jmp", ["C01", "C09"], fn="jmp", desc="jmp: Goto(offset), nothing else"),
         Obl("C01.handler.jmp_pop", ["C01", "C09"], fn="jmp_pop", desc="jmp_pop: GotoPopScope(offset, frames) with frames = 1 when omitted"),
         Obl("C01.handler.done", ["C01", "C09"], fn="done", desc="done: PopScope"),
         Obl("C01.handler.else_stmt", ["C01", "C09"], fn="else_stmt", desc="else_stmt: PushScope(Else)"),
-        Obl("C15.handler.store_skip", ["C15", "C01"], fn="store_skip", desc="store_skip: the deciding left value stays as the result and the right operand is skipped; otherwise it is saved in the register and the stack is emptied"),
+        Obl("C15.handler.store_skip", ["C15", "C01", "C02"], fn="store_skip", desc="store_skip: the deciding left value stays as the result and the right operand is skipped; otherwise it is saved in the register and the stack is emptied"),
     ]
     return gen, obls, log
 
 
-U_CTRL = VUnit("c01_control", ["C01", "C09", "C15"], "control-flow handlers: the exit state each control instruction signals", build_control)
-U_CTRL.assumes = ["the condition operand is taken as it is on the stack (no heap-pointer view): that the compiler never leaves a pointer there is not proved",
+U_CTRL = VUnit("c01_control", ["C01", "C09", "C15", "C02"], "control-flow handlers: the exit state each control instruction signals", build_control)
+U_CTRL.assumes = ["heap pointers abstract: move_out_of_heap_primitive is the identity on plain values and the pointee's value on pointers",
                   "Stack::register_variable_local is an abstract callee", "str::parse as an assumed contract (num_of / parses_*)"]
 UNITS = [U_CTRL]
 
